@@ -1594,6 +1594,15 @@ where
                     let r = guarded(|| S::PC::commit(&inst.ck, [&lp], Some(&mut rng.clone())));
                     refuse(ctx, &id, "more-variables-than-the-key", matches!(r, Ok(Ok(_))), format!("key nv {} poly nv {}", nv, nv + extra));
                 }
+                // … and a smaller one must not be zero-padded into a different polynomial (D25)
+                for fewer in [1usize, 2] {
+                    if nv < fewer + 1 { continue; }
+                    let smaller = Sizes { num_vars: Some(nv - fewer), ..sizes.clone() };
+                    let p = S::rand_poly(&mut rng, &smaller, 1);
+                    let lp = LabeledPolynomial::new("nvsmall".to_string(), p, None, None);
+                    let r = guarded(|| S::PC::commit(&inst.ck, [&lp], Some(&mut rng.clone())));
+                    refuse(ctx, &id, "fewer-variables-than-the-key", matches!(r, Ok(Ok(_))), format!("key nv {} poly nv {}", nv, nv - fewer));
+                }
             }
             if S::NAME == "hyrax" {
                 for extra in [2usize, 4] {
